@@ -11,7 +11,11 @@ use crate::json::J;
 use crate::spaces;
 
 const ALPHA: [char; 5] = ['[', ']', '+', 'x', 'é'];
-const COMMENTS: [char; 5] = [' ', 'x', 'é', '\n', '\u{1F600}'];
+// comment characters, including ones whose code point modulo 256 is a command byte
+// (U+012B ~ '+', U+015B ~ '[', U+015D ~ ']', U+013E ~ '>', U+1F62B ~ '+')
+const COMMENTS: [char; 10] = [' ', 'x', 'é', '\n', '\u{1F600}', '\u{12B}', '\u{15B}', '\u{15D}', '\u{13E}', '\u{1F62B}'];
+/// second alphabet: brackets and their non-ASCII look-alikes modulo 256
+const ALPHA2: [char; 5] = ['[', ']', '\u{15B}', '\u{15D}', '\u{12B}'];
 
 struct Plan {
     max_len: usize,
@@ -170,7 +174,7 @@ pub fn judge_relational(ctx: &mut WorkerCtx, base: &str) {
             v.insert(pos, c);
             variants.push((v.iter().collect(), vec![pos]));
             for pos2 in pos..=chars.len() {
-                for &c2 in &COMMENTS[1..3] {
+                for &c2 in &[COMMENTS[1], COMMENTS[2], COMMENTS[6]] {
                     let mut v2 = v.clone();
                     v2.insert(pos2 + 1, c2);
                     variants.push((v2.iter().collect(), vec![pos, pos2 + 1]));
@@ -285,6 +289,27 @@ pub fn worker(ctx: &mut WorkerCtx) {
             idx += 1;
         }
     }
+    // part 1b: the second alphabet (non-ASCII characters that truncate to command bytes), up to length 6
+    for len in 1..=6usize {
+        let total = 5u64.pow(len as u32);
+        for i in 0..total {
+            if ctx.owns(idx) {
+                let mut v = Vec::with_capacity(len);
+                let mut k = i;
+                for _ in 0..len {
+                    v.push(ALPHA2[(k % 5) as usize]);
+                    k /= 5;
+                }
+                let s: String = v.into_iter().collect();
+                owned += 1;
+                if owned % 64 == 1 {
+                    ctx.mark(idx, 1, s.as_bytes());
+                }
+                judge_string(ctx, &p, &s);
+            }
+            idx += 1;
+        }
+    }
     // part 2: comment insertion into valid programs of A(rel_len) and into unbalanced strings
     let mut bases: Vec<(u64, String)> = Vec::new();
     let b0 = idx;
@@ -365,11 +390,11 @@ pub fn info(tier: Tier) -> CheckInfo {
         level: "model_checking",
         rule: format!(
             "Exhaustive: every string over the alphabet {{'[',']','+','x','é'}} ('é' is two bytes, so character index != byte index) up \
-             to length {} through ir::Program::parse (all widths up to length {}), Executor::create of the IR interpreter, bytecode \
+             to length {} (and over {{'[',']',U+015B,U+015D,U+012B}} — look-alikes of brackets modulo 256 — up to length 6) through ir::Program::parse (all widths up to length {}), Executor::create of the IR interpreter, bytecode \
              interpreter and JIT at levels 0 and 2 (up to length {}) and a budgeted run of the in-place interpreter; oracle = a stack \
              matcher (Ok iff balanced, else LoopNotOpened at the character index of the first unmatched ']', else LoopNotClosed at the \
              index of the innermost unclosed '['). Relational: every insertion of one or two comment characters (space, x, é, newline, \
-             U+1F600) at every position into every valid program of A(len<={}) and every unbalanced string over '[',']','+' of that \
+             U+1F600 and five non-ASCII characters whose code point modulo 256 is a command byte) at every position into every valid program of A(len<={}) and every unbalanced string over '[',']','+' of that \
              length: same acceptance / same error kind with the position shifted by the insertions before it, identical printed IR and \
              identical I/O log on all four backends. Totality: nesting families [^n ]^n and (+[)^n (-])^n up to n={} in isolated \
              processes. A case is non-trivial if it contains a bracket; distinct = distinct such strings.",
